@@ -26,6 +26,8 @@ def rand_comp(rnd, allow_other):
             rnd.randint(0, 200) if r < 0.9 else round(rnd.uniform(0, 60), rnd.choice([1, 2, 4]))
     if allow_other and rnd.random() < 0.3:
         c[rnd.choice(OTHER)] = rnd.randint(1, 4)
+    if rnd.random() < 0.2:      # isotope-labelled elements
+        c[rnd.choice(["13C", "2H", "D", "15N", "18O"])] = rnd.randint(1, 6)
     if rnd.random() < 0.3:
         c[rnd.choice(["e", "p", "n"])] = rnd.choice([-2, -1, 1, 2, 3])
     if all(v == 0 for k, v in c.items() if k not in "epn"):
@@ -42,7 +44,7 @@ def pattern_event(pp, tid, c, opts):
     ev = {"tid": tid, "k": "pattern", "comp": [[k, e4(v)] for k, v in c.items()], "opts": {k: str(v) for k, v in opts.items()},
           "requested": fix(opts.get("distribution_abundance", 1.0)), "isSum": bool(opts.get("is_abundance_sum", False)),
           "pruned": bool(pruned), "massView": bool(mass_view and r >= 3),
-          "lightestFirst": all(k in LIGHT + ["e", "p", "n"] for k in c), "unlabelled": True,
+          "lightestFirst": all(k in LIGHT + ["e", "p", "n", "13C", "2H", "D", "15N", "18O"] for k in c), "unlabelled": True,
           "resolutionSlack": int(10 ** (6 - r)) * max(1, len(c)) if r >= 3 else 0, "out": o,
           "pattern": pattern(p) if o == "ret" else []}
     return ev
